@@ -111,3 +111,34 @@ def opcodes():
             os.remove(out)
         return (p.stderr.strip() or "extract-opcodes failed")[-1500:]
     return None
+
+
+# ---------------------------------------------------------------- engine properties: the commander's protocol skeleton
+
+@register("commander")
+def commander():
+    """extract/commander (go/ast) -> lean/Generated/Commander.lean (+ build/commander.json for the evidence).
+    The old file is removed first: when the translator meets a construct it does not understand NO skeleton is left
+    behind, Props.Skeleton stops building and the engine checks report which construct it was."""
+    import subprocess
+    from .common import VERIF, REPO, BUILD, GOENV
+    out = os.path.join(LEAN, "Generated", "Commander.lean")
+    summary = os.path.join(BUILD, "commander.json")
+    for f in (out, summary):
+        if os.path.exists(f):
+            os.remove(f)
+    os.makedirs(BUILD, exist_ok=True)
+    os.makedirs(os.path.join(LEAN, "Generated"), exist_ok=True)
+    src = os.path.join(VERIF, "extract", "commander")
+    binary = os.path.join(BUILD, "extract-commander")
+    if os.path.exists(binary):
+        os.remove(binary)
+    p = subprocess.run(["go", "build", "-o", binary, "."], cwd=src, env=GOENV, capture_output=True, text=True, timeout=600)
+    if p.returncode != 0:
+        return "go build extract/commander failed: " + p.stderr[-1500:]
+    p = subprocess.run([binary, "-repo", REPO, "-out", out, "-json", summary], capture_output=True, text=True, timeout=600)
+    if p.returncode != 0:
+        if os.path.exists(out):
+            os.remove(out)
+        return (p.stderr.strip() or "extract-commander failed")[-2500:]
+    return None
